@@ -165,12 +165,52 @@ Lemma block_string_escape_refuted :
   exists inp d, parse_operation_document 0 inp = POk d /\ ck_opdoc inp 0 d = false /\ no_lone_cr inp = true.
 Proof. exists w_block_escape. eexists. split; [vm_compute; reflexivity|]. split; vm_compute; reflexivity. Qed.
 
-(** a surrogate pair written with two \u escapes denotes one scalar value; the builder panics on the
-    first half ("Invalid character code") *)
-Lemma surrogate_pair_refuted :
-  exists inp, parse_operation_document 0 inp = PPanic P_char /\
-              (exists t, string_at (skipn 7 inp) = Some t /\ t = [128512]).
-Proof. exists w_surrogate_pair. split; [vm_compute; reflexivity|]. eexists. split; vm_compute; reflexivity. Qed.
+(** unicode escapes (since /repo a4a3647; before, every one of these inputs made the builder panic and
+    `surrogate-pair-escape-panics` was a known finding of this check): a surrogate pair written with two
+    \uXXXX escapes denotes one supplementary character, and the escapes that denote no character are a
+    parse error -- exactly where the specification's StringValue semantics (Spec.string_at) is undefined *)
+Definition string_arg_value (d : opdoc) : option str :=
+  match od_defs d with
+  | [DOp o] => match selset_sels (op_sel o) with
+               | [SField _ _ (Some args) _ _] => match args_list args with [(_, VString _ v)] => Some v | _ => None end
+               | _ => None
+               end
+  | _ => None
+  end.
+
+Lemma surrogate_pair_decodes :
+  exists d, parse_operation_document 0 w_surrogate_pair = POk d /\ string_arg_value d = Some [128512] /\
+            string_at (skipn 7 w_surrogate_pair) = Some [128512] /\ ck_opdoc w_surrogate_pair 0 d = true.
+Proof. eexists. split; [vm_compute; reflexivity|]. repeat split; vm_compute; reflexivity. Qed.
+
+Definition w_bad_escapes : list str :=
+  [ s "{ a(s: ""\uD800"") }";                 (* lone leading surrogate *)
+    s "{ a(s: ""\uDE00"") }";                 (* lone trailing surrogate *)
+    s "{ a(s: ""\uDE00\uD83D"") }";           (* reversed pair *)
+    s "{ a(s: ""\uD83Dx\uDE00"") }";          (* pair interrupted *)
+    s "{ a(s: ""\uD83D\u{DE00}"") }";         (* the braced form never pairs *)
+    s "{ a(s: ""\u{D800}"") }";               (* braced surrogate *)
+    s "{ a(s: ""\u{110000}"") }";             (* above U+10FFFF *)
+    s "{ a(s: ""\u{FFFFFFFFF}"") }" ].        (* does not fit 32 bits *)
+
+Lemma bad_escapes_rejected :
+  forallb (fun w => match parse_operation_document 0 w with PErr => true | _ => false end
+                    && match string_at (skipn 7 w) with None => true | Some _ => false end) w_bad_escapes = true.
+Proof. vm_compute. reflexivity. Qed.
+
+Definition w_good_escapes : list (str * str) :=
+  [ (s "{ a(s: ""\uD83D\uDE00\uD83D\uDE00"") }", [128512; 128512]);
+    (s "{ a(s: ""\u{1F600}\u00e9\u{41}"") }", [128512; 233; 65]);
+    (s "{ a(s: ""\uDBFF\uDFFF\uD7FF\uE000"") }", [1114111; 55295; 57344]);
+    (s "{ a(s: ""\u{10FFFF}\u{0}"") }", [1114111; 0]) ].
+
+Lemma good_escapes_decoded :
+  forallb (fun wv => match parse_operation_document 0 (fst wv) with
+                     | POk d => match string_arg_value d with Some v => str_eqb v (snd wv) | None => false end
+                                && ck_opdoc (fst wv) 0 d
+                     | _ => false
+                     end) w_good_escapes = true.
+Proof. vm_compute. reflexivity. Qed.
 
 (** `type A` (ObjectTypeDefinition without fields and directives) and `union U` (without member
     types) are documents of the language.  Until /repo commits 530788b and 3814a72 the grammar rejected
